@@ -143,14 +143,72 @@ Definition render_with (ri : bool) (passes : nat) (fs : list bytes) (ts : list t
   flat_map item_print (tc_items tc_init (passes_events ri fs passes ts)).
 End Writer.
 
-Record scenario := { s_dur : N; s_ri : bool; s_passes : nat; s_filters : list bytes; s_tests : list test }.
-(* everything handed to printBuffer, in order; and for every pass, for every registered test in order, how often its body was executed *)
+(* ------------------------------------------------------------------------------------------------------------
+   The pieces: every call of printBuffer, in order.  print(literal) / print(number) hand one piece to printBuffer, printEscaped hands
+   one piece per character of its argument (the character, or | and the character / n / r).  The literals are those of the source:
+   "##teamcity[<kind> <key1>='", between two values "' <key>='", at the end "']\n". *)
+Definition seg_pieces (x : seg) : list bytes := match x with Raw s => [s] | Esc s => map tc_esc s end.
+Fixpoint attrs_pieces (a : bytes * list seg) (r : list (bytes * list seg)) {struct r} : list bytes :=
+  flat_map seg_pieces (snd a) ++
+  match r with
+  | [] => [[39; 93; 10]]
+  | b :: r' => ([39; 32] ++ fst b ++ [61; 39]) :: attrs_pieces b r'
+  end.
+Definition msg_pieces (m : pmsg) : list bytes :=
+  match pm_attrs m with
+  | [] => [L_marker ++ pm_name m ++ [93; 10]]
+  | a :: r => (L_marker ++ pm_name m ++ [32] ++ fst a ++ [61; 39]) :: attrs_pieces a r
+  end.
+Definition item_pieces (i : item) : list bytes := match i with IMsg m => msg_pieces m | IText s => [s] end.
+
+(* ------------------------------------------------------------------------------------------------------------
+   The console path the TeamCity output inherits: ConsoleTestOutput::printBuffer(s) = PlatformSpecificFPuts(s, stdout); flush();
+   ConsoleTestOutput::flush() = PlatformSpecificFlush().  What the platform is asked to do, call by call: *)
+Inductive wop := WPuts (s : bytes) | WFlush.
+Definition console_printBuffer (s : bytes) : list wop := [WPuts s; WFlush].
+Definition console (pieces : list bytes) : list wop := flat_map console_printBuffer pieces.
+(* what has reached standard output after these calls (flushes move no byte) *)
+Definition wop_bytes (o : wop) : bytes := match o with WPuts s => s | WFlush => [] end.
+Definition written (ops : list wop) : bytes := flat_map wop_bytes ops.
+
+(* ------------------------------------------------------------------------------------------------------------
+   Very verbose mode (-vv, TestOutput::verbose(level_veryVerbose)): UtestShell::runOneTestInCurrentProcess and Utest::run hand
+   progress texts to TestOutput::printVeryVerbose around the stages of a test that is run (an IgnoredUtestShell that is not run only
+   counts); they reach printBuffer as they are.  With exceptions enabled a fail() leaves the body before "after body".
+   Verbose mode (-v) changes nothing: TeamCityTestOutput overrides printCurrentTestStarted / printCurrentTestEnded without calling
+   the base class, so neither the formatted test name, the " - n ms" text nor the progress dots of TestOutput are printed. *)
+Definition vv_pre : list bytes := Eval vm_compute in
+  map (fun x => 10 :: B x) ["-- before runAllPreTestAction: "; "-- after runAllPreTestAction: "; "---- before createTest: "; "---- after createTest: ";
+                           "------ before runTest: "; "-------- before setup: "; "-------- after  setup: "; "----------  before body: "]%string.
+Definition vv_after_body : bytes := Eval vm_compute in 10 :: B "----------  after body: "%string.
+Definition vv_tail : list bytes := Eval vm_compute in
+  map (fun x => 10 :: B x) ["--------  before teardown: "; "--------  after teardown: "; "------ after runTest: "; "---- before destroyTest: ";
+                           "---- after destroyTest: "; "-- before runAllPostTestAction: "; "-- after runAllPostTestAction: "]%string.
+Definition vv_post (completed : bool) : list bytes := (if completed then [vv_after_body] else []) ++ vv_tail.
+(* running = the test announced last is run; ETestEnd c: c = 1 iff the body was left by fail() *)
+Fixpoint vv_decorate (running : bool) (es : list ev) : list ev :=
+  match es with
+  | [] => []
+  | ETestStart t :: r => ETestStart t :: (if t_ignored t then [] else map EPrint vv_pre) ++ vv_decorate (negb (t_ignored t)) r
+  | ETestEnd c :: r => (if running then map EPrint (vv_post (c =? 0)) else []) ++ ETestEnd c :: vv_decorate false r
+  | e :: r => e :: vv_decorate running r
+  end.
+Definition decorate (verb : N) (es : list ev) : list ev := if verb =? 2 then vv_decorate false es else es.
+
+(* s_verb: 0 quiet, 1 verbose (-v), 2 very verbose (-vv).  s_sink: where the stream is observed - 0: a subclass that overrides
+   printBuffer (a test double: the pieces themselves); 1: the PlatformSpecificFPuts / PlatformSpecificFlush seam under the real
+   ConsoleTestOutput::printBuffer; 2: file descriptor 1 of the process under the real platform functions. *)
+Record scenario := { s_dur : N; s_ri : bool; s_passes : nat; s_filters : list bytes; s_tests : list test; s_verb : N; s_sink : N }.
+(* everything that reached the sink, in order; and for every pass, for every registered test in order, how often its body was executed *)
 Record obs := { o_stream : bytes; o_exec : list N }.
 Definition add_text (o : obs) (trailer : bytes) : obs := {| o_stream := o_stream o ++ trailer; o_exec := o_exec o |}.
 Definition render_tc (dur : N) (ri : bool) (passes : nat) (fs : list bytes) (ts : list test) : bytes := render_with Esc true dur ri passes fs ts.
 Definition run_exec (s : scenario) : list N := passes_exec (s_ri s) (s_filters s) (s_passes s) (s_tests s).
-Definition run (s : scenario) : obs :=
-  {| o_stream := render_tc (s_dur s) (s_ri s) (s_passes s) (s_filters s) (s_tests s); o_exec := run_exec s |}.
+Definition run_events (s : scenario) : list ev := decorate (s_verb s) (passes_events (s_ri s) (s_filters s) (s_passes s) (s_tests s)).
+Definition run_items_of (s : scenario) : list item := tc_items Esc true (s_dur s) tc_init (run_events s).
+Definition run_pieces (s : scenario) : list bytes := flat_map item_pieces (run_items_of s).
+Definition sink_stream (sink : N) (pieces : list bytes) : bytes := if sink =? 0 then concat pieces else written (console pieces).
+Definition run (s : scenario) : obs := {| o_stream := sink_stream (s_sink s) (run_pieces s); o_exec := run_exec s |}.
 Definition run_old_path (s : scenario) : obs :=     (* before the repair of D15 (1) *)
   {| o_stream := render_with Raw true (s_dur s) (s_ri s) (s_passes s) (s_filters s) (s_tests s); o_exec := run_exec s |}.
 Definition run_old_group (s : scenario) : obs :=    (* before the repair of D15 (2) *)
@@ -167,7 +225,8 @@ Definition tc_okstmt (s : stmt) : bool :=
   end.
 Definition tc_oktest (t : test) : bool :=
   cstring (t_group t) && cstring (t_name t) && cstring (t_file t) && (t_line t <=? max_size) && forallb tc_okstmt (t_body t).
-Definition valid (s : scenario) : bool := (s_dur s <=? max_size) && forallb cstring (s_filters s) && forallb tc_oktest (s_tests s).
+Definition valid (s : scenario) : bool :=
+  (s_dur s <=? max_size) && (s_verb s <=? 2) && (s_sink s <=? 2) && forallb cstring (s_filters s) && forallb tc_oktest (s_tests s).
 
 (* ------------------------------------------------------------------------------------------------------------
    TeamCity service messages, read as the documentation defines them:
@@ -222,7 +281,7 @@ Definition step (m : mode) (c : N) : option mode :=
       else None
   | MQuote nm attrs k => if c =? 39 then Some (MVal nm attrs k []) else None
   | MVal nm attrs k acc =>
-      if c =? 39 then Some (MAfter nm ((k, rev acc) :: attrs))
+      if c =? 39 then Some (MAfter nm ((k, rev_append acc []) :: attrs))
       else if c =? 124 then Some (MEsc nm attrs k acc)
       else if raw_forbidden c then None
       else Some (MVal nm attrs k (c :: acc))
@@ -390,8 +449,33 @@ Fixpoint faithful (ri : bool) (fs : list bytes) (gs : list (list test)) (cs : li
 Definition pass_groups (passes : nat) (ts : list test) : list (list test) := concat (repeat (segments ts) passes).
 Definition spec_msgs (ri : bool) (passes : nat) (fs : list bytes) (ts : list test) (cs : list N) (ms : list message) : bool :=
   balanced ms && faithful ri fs (pass_groups passes ts) cs ms.
+(* Reading of a very verbose stream: the progress texts do not end in a line break, so a message written after one starts in the
+   middle of a line.  There a message is recognised wherever the marker first occurs in a line; what stands before it is ordinary
+   text, the message must still end the line (one message per line), and everything else is as strict as above.  On a stream the
+   strict reading accepts, both readings return the same messages (C20_parse_any_extends_strict). *)
+Fixpoint after_marker (l : bytes) : option bytes :=
+  if is_prefix L_marker l then Some (skipn 11 l)
+  else match l with [] => None | _ :: r => after_marker r end.
+Definition classify_line_any (l : bytes) : line_kind :=
+  match after_marker l with
+  | Some b => match parse_msg b with Some m => LMsg m | None => LBad end
+  | None => LPlain
+  end.
+Fixpoint parse_lines_any (ls : list bytes) : option (list message) :=
+  match ls with
+  | [] => Some []
+  | l :: r =>
+      match classify_line_any l with
+      | LBad => None
+      | LPlain => parse_lines_any r
+      | LMsg m => match parse_lines_any r with Some ms => Some (m :: ms) | None => None end
+      end
+  end.
+Definition tc_parse_any (s : bytes) : option (list message) := parse_lines_any (lines s).
+Definition parse_for (verb : N) : bytes -> option (list message) := if verb =? 2 then tc_parse_any else tc_parse.
+
 Definition spec (s : scenario) (o : obs) : bool :=
-  match tc_parse (o_stream o) with
+  match parse_for (s_verb s) (o_stream o) with
   | Some ms => spec_msgs (s_ri s) (s_passes s) (s_filters s) (s_tests s) (o_exec o) ms
   | None => false
   end.
@@ -399,6 +483,8 @@ Definition spec (s : scenario) (o : obs) : bool :=
 (* the parser alone, for comparing it with an independent decoder on arbitrary byte strings *)
 Definition parse_result (s : bytes) : option (list (bytes * list (bytes * bytes))) :=
   match tc_parse s with Some ms => Some (map (fun m => (m_name m, m_attrs m)) ms) | None => None end.
+Definition parse_result_any (s : bytes) : option (list (bytes * list (bytes * bytes))) :=
+  match tc_parse_any s with Some ms => Some (map (fun m => (m_name m, m_attrs m)) ms) | None => None end.
 
 (* ------------------------------------------------------------------------------------------------------------
    Statement-level definitions used by the theorems (not extracted). *)
@@ -450,3 +536,27 @@ Definition exec_of (ri : bool) (passes : nat) (fs : list bytes) (ts : list test)
 Definition seg_dec (x : seg) : bytes := match x with Raw s => s | Esc s => s end.
 Definition erase (m : pmsg) : message :=
   {| m_name := pm_name m; m_attrs := map (fun a => (fst a, flat_map seg_dec (snd a))) (pm_attrs m) |}.
+
+(* ------------------------------------------------------------------------------------------------------------
+   A line buffer between printBuffer and the platform (statement-level; not the code): bytes are collected in a buffer of `cap`
+   bytes, a full buffer is written out, a line break writes the buffer out and flushes, the rest is written out when the output
+   object is destroyed.  lossy = false: the character that finds the buffer full is stored after the buffer was written out (a
+   harmless rewrite of ConsoleTestOutput); lossy = true: it is forgotten (red-team change C20-3 of round 3, cap = 255). *)
+Definition write_line (buf : bytes) : list wop := match buf with [] => [] | _ => [WPuts buf] end.
+Fixpoint linebuf_chars (lossy : bool) (cap : nat) (buf : bytes) (s : bytes) : list wop * bytes :=
+  match s with
+  | [] => ([], buf)
+  | c :: r =>
+      let '(o1, b1) := if Nat.ltb (length buf) cap then ([], buf ++ [c]) else (write_line buf, if lossy then [] else [c]) in
+      let '(o2, b2) := if c =? 10 then (write_line b1 ++ [WFlush], []) else ([], b1) in
+      let '(o3, b3) := linebuf_chars lossy cap b2 r in
+      (o1 ++ o2 ++ o3, b3)
+  end.
+Fixpoint linebuf_pieces (lossy : bool) (cap : nat) (buf : bytes) (pieces : list bytes) : list wop :=
+  match pieces with
+  | [] => write_line buf                                   (* the destructor *)
+  | p :: r => let '(o, b) := linebuf_chars lossy cap buf p in o ++ linebuf_pieces lossy cap b r
+  end.
+Definition linebuf (lossy : bool) (cap : nat) (pieces : list bytes) : list wop := linebuf_pieces lossy cap [] pieces.
+Definition run_linebuf (lossy : bool) (cap : nat) (s : scenario) : obs :=
+  {| o_stream := written (linebuf lossy cap (run_pieces s)); o_exec := run_exec s |}.
